@@ -443,11 +443,11 @@ def pasg : Pat :=
 /-- `Pat.toExpr` is what the parser builds -/
 example : parseExprTop c!"[a, [b, ..c]]" = .ok pasg.toExpr := by with_unfolding_all rfl
 
-/-- scope cells 0 (outermost, has `a` and an outer `c`), 1 (has `b`), 2 (innermost, has `c`); cell 3 =
+/-- scope cells 0 (outermost, has `a` and an outer `c`), 1 (has `b` and `xs`, the list of cell 3), 2 (innermost, has `c`); cell 3 =
     `[1, <cell 4>]`, cell 4 = `[2, 3, 4]`; the scope chain is `[2, 1, 0]` -/
 def σasg : State :=
   ⟨#[.scope [(c!"a", SVal.plain (.int 0), (1, 1)), (c!"c", SVal.plain (.int 7), (2, 1))],
-     .scope [(c!"b", SVal.plain (.int 0), (4, 5))],
+     .scope [(c!"b", SVal.plain (.int 0), (4, 5)), (c!"xs", SVal.plain (.list 3), (3, 1))],
      .scope [(c!"c", SVal.plain (.int 0), (6, 9))],
      .list [SVal.plain (.int 1), SVal.plain (.list 4)],
      .list [SVal.plain (.int 2), SVal.plain (.int 3), SVal.plain (.int 4)]], []⟩
@@ -463,7 +463,7 @@ def σasg1 : State := ⟨σasg.heap.push (.list [SVal.plain (.int 3), SVal.plain
     declaration positions kept -/
 def σasg2 : State :=
   ⟨#[.scope [(c!"a", SVal.plain (.int 1), (1, 1)), (c!"c", SVal.plain (.int 7), (2, 1))],
-     .scope [(c!"b", SVal.plain (.int 2), (4, 5))],
+     .scope [(c!"b", SVal.plain (.int 2), (4, 5)), (c!"xs", SVal.plain (.list 3), (3, 1))],
      .scope [(c!"c", SVal.plain (.list 5), (6, 9))],
      .list [SVal.plain (.int 1), SVal.plain (.list 4)],
      .list [SVal.plain (.int 2), SVal.plain (.int 3), SVal.plain (.int 4)],
@@ -486,6 +486,30 @@ example : pasg.size = 11 ∧ proj pasg σasg (SVal.plain (.list 3)) = some (bsAs
 example : bindNext 11 σasg [2, 1, 0] [] pasg.toExpr (SVal.plain (.list 3)) none false =
     .ok [c!"c", c!"b", c!"a"] σasg2 := by
   with_unfolding_all rfl
+
+/-- hypotheses of `assign_stmt_nested` for the statement `[a, [b, ..c]] = xs;` (the others are those above) … -/
+example : evalExpr 11 σasg [2, 1, 0] (.mk (.Var c!"xs") (1, 17)) = .ok (SVal.plain (.list 3)) σasg ∧ pasg.size ≤ 11 :=
+  ⟨by with_unfolding_all rfl, by decide⟩
+
+/-- … and its conclusion, computed by the evaluator -/
+example : evalStmt 12 σasg [2, 1, 0] (.Assign pasg.toExpr (.mk (.Var c!"xs") (1, 17))) = .ok .none σasg2 := by
+  with_unfolding_all rfl
+
+/-- the hypothesis of `assign_nested_not_ok` for `[a, z] = <cell 4>`-like mismatches: here `[a, z]` against the
+    two-element list of cell 3 has the right shape, but `z` is declared nowhere in the chain -/
+example : ∀ bs σ1,
+    proj (.list (.cons (.var c!"a" (1, 2)) (.cons (.var c!"z" (1, 5)) .nil)) false (1, 1)) σasg (SVal.plain (.list 3)) =
+      some (bs, σ1) →
+    ¬ ((bs.map Prod.fst).Nodup ∧ ∀ x ∈ bs.map Prod.fst, x ∉ ([] : List (List Char)) ∧ Declared σasg [2, 1, 0] x) := by
+  intro bs σ1 h
+  have h0 : proj (.list (.cons (.var c!"a" (1, 2)) (.cons (.var c!"z" (1, 5)) .nil)) false (1, 1)) σasg
+      (SVal.plain (.list 3)) =
+      some ([(c!"a", SVal.plain (.int 1), (1, 2)), (c!"z", SVal.plain (.list 4), (1, 5))], σasg) := by rfl
+  rw [h0] at h
+  cases h
+  rintro ⟨_, hall⟩
+  obtain ⟨w, hw⟩ := (hall c!"z" (by decide)).2
+  cases hw
 
 /-- the nearest bindings: `a` lives in cell 0, `b` in cell 1, `c` in cell 2 (not in cell 0, which also has a `c`) -/
 example : (nearest σasg [2, 1, 0] c!"a").map Prod.fst = some 0 ∧ (nearest σasg [2, 1, 0] c!"b").map Prod.fst = some 1 ∧
@@ -520,5 +544,15 @@ example : (run 60 c!"e2.sd" c!"a := 0;\n{\n    [a, z] = [1, 2];\n}\nprint(a);\n"
 /-- hypotheses of `aName_dup` / `aName_undefined` are satisfiable -/
 example : c!"a" ≠ c!"_" ∧ c!"a" ∈ [c!"a"] ∧ c!"z" ∉ ([] : List (List Char)) ∧ ¬ Declared σasg [2, 1, 0] c!"z" :=
   ⟨by decide, by decide, by decide, fun ⟨w, h⟩ => by cases h⟩
+
+/-! ### not covered: leaves that are index targets
+
+  Leaves of the form `xs[i]` / `o.k` are outside `Pat` (they evaluate expressions in the middle of the binding), and
+  the declarative reading above does not extend to them as it stands: such a leaf writes into a list or object
+  cell, and the source cell is read again at every item, so an index leaf can overwrite the very source that later
+  items are taken from.  `proj` (all reads on the un-assigned state) would make `[xs[1], xs[0]] = xs` a swap; the
+  engine — and the interpreter — produce `[1, 1]`: -/
+example : (run 60 c!"s1.sd" c!"xs := [1, 2];\n[xs[1], xs[0]] = xs;\nprint(xs);\n").out = [c!"[\n    1,\n    1,\n]"] := by
+  decide +kernel
 
 end Seed.C13N
